@@ -191,11 +191,13 @@ func ParseField(v reflect.Value, bytes []byte, params fieldParameters) error {
 	if int64(talOff)+tal.len > int64(len(bytes)) {
 		return fmt.Errorf("type value out of range")
 	}
+	// the contents of this element: exactly the octets its length announces, not whatever follows it
+	contents := bytes[talOff : int64(talOff)+tal.len]
 
 	// We deal with the structures defined in this package first.
 	switch fieldType {
 	case BitStringType:
-		val, parse_err := parseBitString(bytes[talOff:])
+		val, parse_err := parseBitString(contents)
 		if parse_err != nil {
 			return parse_err
 		}
@@ -205,11 +207,11 @@ func ParseField(v reflect.Value, bytes []byte, params fieldParameters) error {
 	case ObjectIdentifierType:
 		return fmt.Errorf("Unsupport ObjectIdenfier type")
 	case OctetStringType:
-		val := bytes[talOff:]
+		val := contents
 		v.Set(reflect.ValueOf(val))
 		return nil
 	case EnumeratedType:
-		val, parse_err := parseInt64(bytes[talOff:])
+		val, parse_err := parseInt64(contents)
 		if parse_err != nil {
 			return parse_err
 		}
@@ -222,17 +224,17 @@ func ParseField(v reflect.Value, bytes []byte, params fieldParameters) error {
 	}
 	switch val := v; val.Kind() {
 	case reflect.Bool:
-		if int(talOff) >= len(bytes) {
+		if len(contents) == 0 {
 			return fmt.Errorf("BOOLEAN without contents")
 		}
-		if parsedBool, parse_err := parseBool(bytes[talOff]); parse_err != nil {
+		if parsedBool, parse_err := parseBool(contents[0]); parse_err != nil {
 			return parse_err
 		} else {
 			val.SetBool(parsedBool)
 			return nil
 		}
 	case reflect.Int, reflect.Int32, reflect.Int64:
-		if parsedInt, parse_err := parseInt64(bytes[talOff:]); parse_err != nil {
+		if parsedInt, parse_err := parseInt64(contents); parse_err != nil {
 			return parse_err
 		} else {
 			val.SetInt(parsedInt)
@@ -407,7 +409,7 @@ func ParseField(v reflect.Value, bytes []byte, params fieldParameters) error {
 		val.Set(newSlice)
 		return nil
 	case reflect.String:
-		val.SetString(string(bytes[talOff:]))
+		val.SetString(string(contents))
 		return nil
 	}
 
